@@ -18,7 +18,7 @@ Definition wA_getter : program :=
   {| p_getter := true; p_start := 2; p_pb := 10; p_body := (SCons (SDoWhile 12 (STry 15 19 (SCons (SRet 21 (Some ELit)) SNil) None SNil (Some 41) (SCons (SCont 43 None) SNil)) (COpaque (EIdent 2))) SNil) |}.
 (* function f() { L1: { for (;;) { if (v1) break L1; if (v2) break; } v3(); } } *)
 Definition wB_c10 : program :=
-  {| p_getter := false; p_start := 0; p_pb := 13; p_body := (SCons (SLabel 15 1 (SBlock 19 (SCons (SFor 21 None (SBlock 30 (SCons (SIf 32 (COpaque (EIdent 1)) (SBrk 40 (Some 1))) (SCons (SIf 50 (COpaque (EIdent 2)) (SBrk 58 None)) SNil)))) (SCons (SExpr 67 (ECall 3)) SNil)))) SNil) |}.
+  {| p_getter := false; p_start := 0; p_pb := 13; p_body := (SCons (SLabel 15 1 (SBlock 19 (SCons (SFor 21 None None None (SBlock 30 (SCons (SIf 32 (COpaque (EIdent 1)) (SBrk 40 (Some 1))) (SCons (SIf 50 (COpaque (EIdent 2)) (SBrk 58 None)) SNil)))) (SCons (SExpr 67 (ECall 3)) SNil)))) SNil) |}.
 (* ({get a() { do L1: if (v2) break L1; else break; while (true); }}) *)
 Definition wB_getter : program :=
   {| p_getter := true; p_start := 2; p_pb := 10; p_body := (SCons (SDoWhile 12 (SLabel 15 1 (SIfElse 19 (COpaque (EIdent 2)) (SBrk 27 (Some 1)) (SBrk 42 None))) CTrue) SNil) |}.
